@@ -114,6 +114,11 @@ class ExpressionFunction(Callable, SimpleRepr):
         return self._expression
 
     @property
+    def source_file(self):
+        """The python source file the expression relies on, if any."""
+        return self._source_file
+
+    @property
     def __name__(self):
         return self._expression
 
